@@ -149,6 +149,18 @@ def make_cases(tier):
         A.stanza("(module (_)* @cs) @_m ", [A.forin("c", A.cap("cs"), [A.let(A.svar(A.var("c"), "v"), A.string("b"))])]),
         A.stanza(qm, [A.let(sv("v"), A.string("d"))]),
     ]), 5, "lazy"))
+    # two stanzas give one attribute of a shared node two DIFFERENT syntax nodes of the same kind and start position; a null and a
+    # non-null value: a conflict in every order
+    nest_srcs = [j + 1 for j, nm in enumerate(A.source_names()) if any(k in nm for k in ("s13_", "s17i_"))]
+    for j, q in enumerate(["(call function: (call) @inner) @outer ", "(attribute object: (attribute) @inner) @outer ", "(binary_operator left: (binary_operator) @inner) @outer "]):
+        f = A.file([A.stanza(qm, [A.node(sv("shared"))]),
+                    A.stanza(q, [A.attrn(A.svar(A.cap("outer"), "shared"), A.attr("which", A.cap("outer"))), A.let(A.var("u"), A.cap("inner"))]),
+                    A.stanza(q, [A.attrn(A.svar(A.cap("inner"), "shared"), A.attr("which", A.cap("inner"))), A.let(A.var("u"), A.cap("outer"))])], inherit=["shared"])
+        for src in nest_srcs:
+            base.append(A.case("c08ident-%d-%d-lazy" % (j, src), f, src, "lazy"))
+    base.append(A.case("c08null-lazy", A.file([A.stanza(qm, [A.node(sv("shared"))]),
+                                               A.stanza(qm, [A.attrn(sv("shared"), A.attr("a", A.null()))]),
+                                               A.stanza(qm, [A.attrn(sv("shared"), A.attr("a", A.integer(1)))])]), 2, "lazy"))
     # a stanza whose query is the bare wildcard, in every position of the file
     base.append(A.case("c08wild-lazy", A.file([
         A.stanza("(pass_statement) @p ", [A.node(A.svar(A.cap("p"), "n"))]),
